@@ -932,6 +932,232 @@ func sectionLineParser(rng *vh.Rng) {
 	res.Done(sec)
 }
 
+
+// ---------------------------------------------------------------------------------------------
+// linefile: one lineParser over a whole file — headers with a timestamp, undated continuation lines in between
+
+var undatedPool = []string{"INFO: request handled without incident", "\tat com.acme.Server.handle(Server.java)", "Caused by: java.lang.IllegalStateException: closed",
+	"  ... more frames omitted", "WARNING: the connection pool is exhausted; retrying", "    continued message text, wrapped by the logger"}
+
+type fileCase struct {
+	Format  string `json:"format"`
+	Pattern []int  `json:"undated_after_each_header"` // Pattern[i] = number of undated lines after header i
+	Minute0 int    `json:"first_minute"`
+}
+
+// the file's lines: header i carries the instant 2019-03-11 + i minutes (so a stale date is visible), rendered in the format
+func (fc fileCase) lines() (lines []string, header []int, kases []kase) {
+	ft := features(fc.Format)
+	for i, nu := range fc.Pattern {
+		t := time.Date(2019, 3, 11, 0, 0, 0, 0, time.UTC).Add(time.Duration(fc.Minute0+i*7) * time.Minute).Add(time.Duration(i%60) * time.Second)
+		k := kase{List: "col", Format: fc.Format, Surround: "line", I: inst{Y: t.Year(), Mo: int(t.Month()), D: t.Day(), H: t.Hour(), Mi: t.Minute(), S: t.Second()}}
+		if ft.frac {
+			k.Frac, k.I.Ns = 3, 120000000
+		}
+		if ft.zoneName && !ft.zoneNum {
+			k.I.ZName = "UTC"
+		}
+		text, ok := k.render()
+		if !ok {
+			continue
+		}
+		k.Text = text
+		lines = append(lines, text+" com.acme.Server handle")
+		header = append(header, len(kases))
+		kases = append(kases, k)
+		for j := 0; j < nu; j++ {
+			lines = append(lines, undatedPool[(i+j)%len(undatedPool)])
+			header = append(header, -1)
+		}
+	}
+	return
+}
+
+func runFileCase(fc fileCase, section string, sec *vh.Section) {
+	lines, header, kases := fc.lines()
+	if len(lines) == 0 {
+		return
+	}
+	maxFail := 10 // documented: this many consecutive undated lines switch the parser to 'skipping' (dated lines are then not read, by design)
+	var td today
+	var impl []string
+	for attempt := 0; attempt < 3; attempt++ {
+		td = getToday()
+		impl = impl[:0]
+		dir, err := ioutil.TempDir(os.Getenv("VERIF_TMP"), "c20f-")
+		if err != nil {
+			res.Note("linefile: %v", err)
+			return
+		}
+		fn := filepath.Join(dir, "f.log")
+		ioutil.WriteFile(fn, []byte(strings.Join(lines, "\n")+"\n"), 0644)
+		lp, err := parser.NewLineParser(fn, date.NewDefaultParser(), 4096)
+		if err == nil {
+			for range lines {
+				rec, err := lp.NextRecord(context.Background())
+				if err != nil {
+					impl = append(impl, "read-error")
+					continue
+				}
+				if rec.GetDate().IsZero() {
+					impl = append(impl, "zero")
+				} else {
+					impl = append(impl, instantOf(canonTime(-1, rec.GetDate())))
+				}
+			}
+			lp.Close()
+		}
+		os.RemoveAll(dir)
+		if getToday() == td {
+			break
+		}
+	}
+	if len(impl) != len(lines) {
+		res.Note("linefile: could not read %d lines", len(lines))
+		return
+	}
+	req := []string{"lp.reset"}
+	for _, ln := range lines {
+		req = append(req, "lp.line "+nowStr(td)+" "+vh.HxS(ln+"\n"))
+	}
+	outs, err := vh.Batch(args.Driver, req) // one process: the model keeps the parser's state between lines
+	if err != nil {
+		res.Fatal(args.Out, "driver: %v", err)
+	}
+	run, skipSeen := 0, false
+	for i, ln := range lines {
+		ans := outs[i+1]
+		state := ""
+		if j := strings.Index(ans, " | "); j >= 0 {
+			ans, state = ans[:j], ans[j+3:]
+		}
+		var mc string
+		switch {
+		case strings.HasPrefix(ans, "dated "):
+			mc = instantOf(canonModel("ok " + strings.TrimPrefix(ans, "dated ")))
+		case ans == "carried zero":
+			mc = "zero"
+		case strings.HasPrefix(ans, "carried "):
+			mc = instantOf(canonModel("ok 0 " + strings.TrimPrefix(ans, "carried ")))
+		default:
+			mc = ans
+		}
+		res.Eval(sec, fc.Format+"|"+fmt.Sprint(fc.Pattern)+"|"+strconv.Itoa(i))
+		if header[i] >= 0 {
+			res.Dist(sec, "line=header")
+		} else {
+			res.Dist(sec, "line=undated")
+		}
+		if strings.HasPrefix(state, "skip=1") {
+			res.Dist(sec, "model-state=skipping")
+		}
+		if impl[i] != mc {
+			res.Mismatch(vh.Mismatch{Section: section, Function: "lineParser.parse (remembered format, fail/skip counters)", Input: map[string]interface{}{"file": fc, "line_no": i, "line": ln},
+				Impl: impl[i], Model: mc + "   [" + outs[i+1] + "]"})
+			return
+		}
+		// SPEC: while no run of maxFail consecutive undated lines has occurred, every header carries its own instant
+		if header[i] < 0 {
+			run++
+			if run >= maxFail {
+				skipSeen = true
+			}
+			continue
+		}
+		run = 0
+		if skipSeen {
+			res.Dist(sec, "header-after-a-long-undated-run(not asserted: documented skipping)")
+			continue
+		}
+		k := kases[header[i]]
+		want := instantOf(canonTime(-1, k.expected(td)))
+		alone := instantOf(implCol(ln + "\n"))
+		if alone != want {
+			res.Dist(sec, "header-format-deviates-alone(known class, not asserted here)")
+			continue
+		}
+		if impl[i] != want {
+			res.SpecFail(vh.SpecFailure{Section: section, Kind: "stale-instant-in-file", Input: fc, Impl: impl[i], Spec: want, Model: mc, ImplEqModel: impl[i] == mc,
+				What: fmt.Sprintf("line %d of the file (%q) starts with its timestamp, fewer than %d undated lines in a row precede it, yet its record carries %s instead of %s", i, ln, maxFail, impl[i], want)})
+			return
+		}
+	}
+}
+
+func sectionLineFile(rng *vh.Rng) {
+	sec := res.Section("linefile", "system-correspondence",
+		"one real lineParser (default date parser) over a whole file: time-stamped header lines (instants 7 minutes apart) each followed by k undated continuation lines, every constant k in 0..12 and 25, growing and random patterns, up to and beyond the 10-failure skip threshold and through several skip cycles; each record's date vs the MODEL of lineParser.parse (remembered format, failSkipCnt/maxSkipCnt/state, lastDate); SPEC: until 10 undated lines IN A ROW have occurred every header carries its own instant")
+	fmts := []string{"YYYY-MM-DD HH:mm:ss.SSS", "MMM D, YYYY h:mm:ss P", "DD/MMM/YYYY:HH:mm:ss ZZZZ", "YYYY-MM-DDTHH:mm:ssZ", "MMM _D HH:mm:ss", "DDD MMM _D HH:mm:ss ZZZ YYYY"}
+	if args.Thorough {
+		fmts = colList
+	}
+	var cases []fileCase
+	for fi, f := range fmts {
+		if indexIn(colList, f) < 0 {
+			continue
+		}
+		ks := []int{0, 1, 2, 3, 4, 5, 9, 10, 11, 25}
+		if args.Thorough || fi == 0 {
+			ks = []int{0, 1, 2, 3, 4, 5, 6, 7, 8, 9, 10, 11, 12, 25}
+		}
+		for _, k := range ks {
+			n := 14
+			if k >= 9 {
+				n = 6
+			}
+			if k <= 2 {
+				n = 24
+			}
+			p := make([]int, n)
+			for i := range p {
+				p[i] = k
+			}
+			cases = append(cases, fileCase{Format: f, Pattern: p, Minute0: rng.Intn(600)})
+		}
+		// growing, alternating and random patterns
+		cases = append(cases, fileCase{Format: f, Pattern: []int{0, 1, 2, 3, 4, 5, 6, 7, 8, 9, 10, 11, 0, 0, 1, 12, 0, 3}, Minute0: rng.Intn(600)})
+		cases = append(cases, fileCase{Format: f, Pattern: []int{9, 9, 9, 0, 9, 1, 9, 0, 0, 9, 9}, Minute0: rng.Intn(600)})
+		cases = append(cases, fileCase{Format: f, Pattern: []int{10, 0, 0, 0, 0, 0, 0, 0, 0, 0, 0, 0, 0, 30, 0, 0, 0, 0, 0, 0, 0, 0, 0, 0, 0, 0, 0, 0, 0, 0, 0, 0, 0, 0, 0, 0, 1, 1}, Minute0: rng.Intn(600)})
+		nr := 3
+		if args.Thorough {
+			nr = 10
+		}
+		for r := 0; r < nr; r++ {
+			p := make([]int, rng.Range(8, 30))
+			for i := range p {
+				switch rng.Intn(4) {
+				case 0:
+					p[i] = 0
+				case 1:
+					p[i] = rng.Range(1, 3)
+				case 2:
+					p[i] = rng.Range(0, 9)
+				case 3:
+					p[i] = rng.Range(8, 13)
+				}
+			}
+			cases = append(cases, fileCase{Format: f, Pattern: p, Minute0: rng.Intn(600)})
+		}
+	}
+	var wg sync.WaitGroup
+	ch := make(chan fileCase)
+	for w := 0; w < 8; w++ {
+		wg.Add(1)
+		go func() {
+			defer wg.Done()
+			for fc := range ch {
+				runFileCase(fc, "linefile", sec)
+			}
+		}()
+	}
+	for _, fc := range cases {
+		ch <- fc
+	}
+	close(ch)
+	wg.Wait()
+	res.Done(sec)
+}
+
 // each format alone: no other format can claim the text
 func sectionOwn(rng *vh.Rng) {
 	sec := res.Section("own", "spec-search",
@@ -1272,8 +1498,20 @@ func cmpLql(text string, modelAns string, before, after time.Time, tm time.Time,
 		mult := map[int]float64{'m': float64(time.Minute), 'h': float64(time.Hour), 'd': float64(24 * time.Hour)}[u]
 		d := time.Duration(val * mult)
 		lo, hi := before.Add(-d), after.Add(-d)
-		if math.IsNaN(val) || math.IsInf(val, 0) || math.Abs(val*mult) > 9e18 {
-			return "" // float→int64 conversion out of range is implementation-defined: not compared
+		if math.IsNaN(val) || math.IsInf(val, 0) || val < 0 {
+			return "" // not a number / negative: the float→int64 conversion is implementation-defined, not compared
+		}
+		if val*mult > 9e18 {
+			if val*mult < 9.3e18 {
+				return "" // at the horizon itself rounding decides
+			}
+			// beyond the int64-nanosecond horizon (~292 years) the float→int64 conversion saturates (amd64: MinInt64, whose
+			// negation is itself; arm64: MaxInt64): the instant is ~292 years before now, never after it
+			lo, hi := before.Add(time.Duration(math.MinInt64)), after.Add(-time.Duration(math.MaxInt64))
+			if tm.Before(lo) || tm.After(hi) {
+				return fmt.Sprintf("relative beyond the int64 horizon: impl %v, expected the saturated instant in [%v, %v]", tm, lo, hi)
+			}
+			return ""
 		}
 		if tm.Before(lo) || tm.After(hi) {
 			return fmt.Sprintf("relative: impl %v outside [%v, %v]", tm, lo, hi)
@@ -1458,6 +1696,64 @@ func sectionInteger(rng *vh.Rng) {
 	res.Done(sec)
 }
 
+
+// effective duration of a relative literal under the float contract: ParseFloat × unit, saturated at the int64 horizon
+func relEffDur(text string) (float64, bool) {
+	t := strings.ToLower(strings.Trim(text, " "))
+	if len(t) < 3 || t[0] != '-' {
+		return 0, false
+	}
+	mult := map[byte]float64{'m': float64(time.Minute), 'h': float64(time.Hour), 'd': float64(24 * time.Hour)}[t[len(t)-1]]
+	v, err := strconv.ParseFloat(t[1:len(t)-1], 64)
+	if err != nil || mult == 0 || math.IsNaN(v) || v < 0 {
+		return 0, false
+	}
+	d := v * mult
+	if d > 9.2e18 {
+		d = 9.2e18 // saturated (everything at or beyond the horizon counts as equal)
+	}
+	return d, true
+}
+
+// monotonicity of one pair (smaller literal first): the larger literal must not denote a later instant. The larger one is parsed
+// second (its "now" is later by at most gap), so the order is asserted only when the effective durations differ by more than the gap.
+func checkRelPair(section string, sec *vh.Section, smaller, larger string) {
+	da, oka := relEffDur(smaller)
+	db, okb := relEffDur(larger)
+	if !oka || !okb {
+		return
+	}
+	if da > db {
+		smaller, larger, da, db = larger, smaller, db, da
+	}
+	t0 := time.Now()
+	ta, ca := implLql(smaller)
+	tb, cb := implLql(larger)
+	gap := time.Since(t0)
+	after := time.Now()
+	res.Eval(sec, "pair|"+smaller+"|"+larger)
+	res.Dist(sec, "pairs")
+	in := map[string]string{"smaller": smaller, "larger": larger}
+	for _, x := range []struct {
+		t    time.Time
+		c, s string
+	}{{ta, ca, smaller}, {tb, cb, larger}} {
+		if x.c == "err" || x.t.After(after) {
+			res.SpecFail(vh.SpecFailure{Section: section, Kind: "relative-in-future-or-rejected", Input: in, Impl: x.c, Spec: "≤ " + after.String(),
+				What: "relative literal " + x.s + " is rejected or denotes an instant later than now"})
+			return
+		}
+	}
+	if db-da < 1 { // equal effective durations (less than a nanosecond apart, or both saturated): nothing to order
+		res.Dist(sec, "pairs:equal-effective-duration")
+		return
+	}
+	if db-da >= float64(gap)+1024 && tb.After(ta) { // 1024 ns: float64 spacing near the horizon
+		res.SpecFail(vh.SpecFailure{Section: section, Kind: "relative-not-monotone", Input: in, Impl: ta.String() + " / " + tb.String(),
+			Spec: "larger literal earlier or equal", What: "the larger relative literal " + larger + " denotes a later instant than " + smaller})
+	}
+}
+
 func sectionRelative(rng *vh.Rng) {
 	sec := res.Section("relative", "spec-search",
 		"LQL relative literals -<n>(m|h|d): n from integers, decimals, exponents, boundaries (0, 0.5, 1e3, 59, 60, 1440, 36500d); each parsed between two clock reads: result within [before−d, after−d] (so not later than now); generated pairs a<b of one unit and across units: the larger literal denotes an earlier-or-equal instant; MODEL: shape (unit, number text) and fall-through")
@@ -1496,6 +1792,30 @@ func sectionRelative(rng *vh.Rng) {
 		}
 		lits = append(lits, rl{"-" + x + u, v * mult[u]})
 	}
+	// at and beyond the int64-nanosecond horizon (2^63 ns = 106751.99 d = 2562047.79 h = 153722867.28 m), every unit: whole numbers
+	// (where an exact integer path would wrap) and decimal / exponent spellings
+	horizon := map[string]float64{"d": 106751.99, "h": 2562047.79, "m": 153722867.28}
+	for _, u := range units {
+		hz := horizon[u]
+		for _, f := range []float64{0.5, 0.9, 0.999, 1, 1.001, 1.5, 1.874, 2, 2.5, 3, 3.5, 4, 7.3, 10, 46.8, 100, 1000, 86400, 1e6} {
+			n := int64(hz * f)
+			for _, x := range []string{strconv.FormatInt(n, 10), strconv.FormatInt(n+1, 10), strconv.FormatFloat(float64(n)+0.5, 'f', -1, 64), strconv.FormatFloat(float64(n), 'e', -1, 64)} {
+				v, err := strconv.ParseFloat(x, 64)
+				if err == nil {
+					lits = append(lits, rl{"-" + x + u, v * mult[u]})
+				}
+			}
+		}
+		for i := 0; i < n/20; i++ {
+			x := strconv.FormatInt(int64(hz*(0.9+float64(rng.Intn(100000))/1000)), 10)
+			v, _ := strconv.ParseFloat(x, 64)
+			lits = append(lits, rl{"-" + x + u, v * mult[u]})
+		}
+	}
+	for _, x := range []string{"200000d", "5000000h", "200000000m", "9223372036854775807m", "9223372036854775807d", "18446744073709551616h", "1e30d"} {
+		v, _ := strconv.ParseFloat(x[:len(x)-1], 64)
+		lits = append(lits, rl{"-" + x, v * mult[x[len(x)-1:]]})
+	}
 	td := getToday()
 	var lines []string
 	type obs struct {
@@ -1519,6 +1839,9 @@ func sectionRelative(rng *vh.Rng) {
 	for i, l := range lits {
 		res.Eval(sec, l.text)
 		res.Dist(sec, "unit="+l.text[len(l.text)-1:])
+		if l.dur > 9.3e18 {
+			res.Dist(sec, "beyond-int64-horizon")
+		}
 		if d := cmpLql(l.text, outs[i], ob[i].bef, ob[i].aft, ob[i].tm, ob[i].c); d != "" || !strings.HasPrefix(outs[i], "rel ") {
 			res.Mismatch(vh.Mismatch{Section: "relative", Function: "parseLqlDateTime (relative literal)", Input: rawCase{"lql", l.text}, Impl: ob[i].c, Model: outs[i] + "  (" + d + ")"})
 		}
@@ -1530,30 +1853,27 @@ func sectionRelative(rng *vh.Rng) {
 	}
 	// monotone: pairs with a strictly larger duration, parsed back to back (the later parse sees a later now, which only helps
 	// the smaller literal; so parse the LARGER one second: it must still be earlier or equal when the difference exceeds the gap)
+	var far, near []rl
+	for _, l := range lits {
+		if l.dur > 9e18 {
+			far = append(far, l)
+		} else {
+			near = append(near, l)
+		}
+	}
 	pairs := n
 	for i := 0; i < pairs; i++ {
 		a, b := lits[rng.Intn(len(lits))], lits[rng.Intn(len(lits))]
+		switch i % 4 {
+		case 1: // one below, one beyond the horizon
+			a, b = near[rng.Intn(len(near))], far[rng.Intn(len(far))]
+		case 2: // both at or beyond it
+			a, b = far[rng.Intn(len(far))], far[rng.Intn(len(far))]
+		}
 		if a.dur > b.dur {
 			a, b = b, a
 		}
-		if b.dur-a.dur < 1 { // less than a nanosecond apart: equal instants allowed either way, nothing to check
-			continue
-		}
-		t0 := time.Now()
-		ta, ca := implLql(a.text)
-		tb, cb := implLql(b.text)
-		gap := time.Since(t0)
-		res.Eval(sec, "pair|"+a.text+"|"+b.text)
-		res.Dist(sec, "pairs")
-		if ca == "err" || cb == "err" {
-			continue
-		}
-		// b is the larger literal, parsed later (now_b ≥ now_a, now_b − now_a ≤ gap): tb = now_b − db ≤ now_a + gap − db.
-		// monotone demands tb ≤ ta whenever db − da ≥ gap (otherwise the clock advance can hide the order)
-		if b.dur-a.dur >= float64(gap)+1 && tb.After(ta) {
-			res.SpecFail(vh.SpecFailure{Section: "relative", Kind: "relative-not-monotone", Input: map[string]string{"smaller": a.text, "larger": b.text}, Impl: ta.String() + " / " + tb.String(),
-				Spec: "larger literal earlier or equal", What: "the larger relative literal " + b.text + " denotes a later instant than " + a.text})
-		}
+		checkRelPair("relative", sec, a.text, b.text)
 	}
 	res.Done(sec)
 }
@@ -1568,7 +1888,7 @@ type corpusDoc struct {
 
 func replayDoc(doc corpusDoc, sec *vh.Section) {
 	var k kase
-	if json.Unmarshal(doc.Input, &k) == nil && k.Format != "" {
+	if json.Unmarshal(doc.Input, &k) == nil && k.Format != "" && k.I.Mo != 0 {
 		switch {
 		case k.List == "col":
 			runSweep(sec.Name, "col", []kase{k}, sec)
@@ -1577,6 +1897,19 @@ func replayDoc(doc corpusDoc, sec *vh.Section) {
 		default: // one-col / one-lql
 			replayOwn(k, sec)
 		}
+		return
+	}
+	var fc fileCase
+	if json.Unmarshal(doc.Input, &fc) == nil && fc.Format != "" && len(fc.Pattern) > 0 {
+		runFileCase(fc, sec.Name, sec)
+		return
+	}
+	var pr struct {
+		Smaller string `json:"smaller"`
+		Larger  string `json:"larger"`
+	}
+	if json.Unmarshal(doc.Input, &pr) == nil && pr.Larger != "" {
+		checkRelPair(sec.Name, sec, pr.Smaller, pr.Larger)
 		return
 	}
 	var r rawCase
@@ -1797,6 +2130,7 @@ func main() {
 	sectionSweepCol(rng.Fork("sweep-col"))
 	sectionSweepLql(rng.Fork("sweep-lql"))
 	sectionLineParser(rng.Fork("lineparser"))
+	sectionLineFile(rng.Fork("linefile"))
 	sectionMutated(rng.Fork("mutated"))
 	sectionInteger(rng.Fork("integer"))
 	sectionRelative(rng.Fork("relative"))
